@@ -402,11 +402,17 @@ SelectedCoded(ev, i, path) ==
 Selected(ev, i, path) == IF ev.sem = "coded" THEN SelectedCoded(ev, i, path) ELSE SelectedDecl(ev, i, path)
 WithSem(ev, sem) == [sem |-> sem] @@ ev
 
-RuleHolds(r, v) ==
-  LET hit == \E i \in 1..Len(r.vals) :
-               CASE r.mode = "prefix"   -> IsPrefixOf(r.vals[i], v)
-                 [] r.mode = "suffix"   -> IsSuffixOf(r.vals[i], v)
-                 [] r.mode = "contains" -> IsInfixOf(r.vals[i], v)
+(* The decision of a match rule is a function of (rule, value) ALONE: no state survives an evaluation or is
+   shared between evaluations (mechanism M_MatchStateless, see MaskRules.tla), so it does not matter which
+   plugin instance evaluates it or what other instances evaluate at the same time.                       *)
+LowerAscii(s) == [i \in 1..Len(s) |-> IF s[i] >= 65 /\ s[i] <= 90 THEN s[i] + 32 ELSE s[i]]
+RuleHolds(r, v0) ==
+  LET v    == IF r.ci THEN LowerAscii(v0) ELSE v0
+      x(i) == IF r.ci THEN LowerAscii(r.vals[i]) ELSE r.vals[i]
+      hit  == \E i \in 1..Len(r.vals) :
+                CASE r.mode = "prefix"   -> IsPrefixOf(x(i), v)
+                  [] r.mode = "suffix"   -> IsSuffixOf(x(i), v)
+                  [] r.mode = "contains" -> IsInfixOf(x(i), v)
   IN hit # r.inv
 RuleSetHolds(rs, v) ==
   /\ rs.rules # <<>>
